@@ -10,6 +10,7 @@
 #include <chrono>
 #include <rapidcheck.h>
 #include <thread>
+#include <signal.h>
 #include <unistd.h>
 
 extern "C" void __sanitizer_set_death_callback(void (*)(void)) __attribute__((weak));
@@ -198,6 +199,7 @@ int main(int argc, char** argv)
             rest.push_back(argv[i]);
     }
     load_known();
+    signal(SIGPIPE, SIG_IGN); // as Tcp::Listener::bind() does for a server process; the client side relies on the application for it
     if (&__sanitizer_set_death_callback)
         __sanitizer_set_death_callback(death_callback);
     harness_init();
